@@ -109,6 +109,15 @@ impl std::error::Error for CodecErr {}
 #[derive(Clone, Copy, Debug, Default)]
 pub struct FixCodec {
     pub var: bool,
+    /// a bit-packing wire format: a member takes TWO bytes when its address
+    /// and generation are below 16 and its incarnation below 63 (the common
+    /// case), an escape form otherwise. Nothing in Foca may assume a minimum
+    /// encoded size of a member.
+    pub packed: bool,
+    /// a codec that FAILS (returns an error, never panics) when asked to
+    /// encode a Down member: Foca may report the error, it must not panic
+    /// now or later
+    pub fail_down: bool,
 }
 
 pub const K_PING: u8 = 1;
@@ -203,6 +212,28 @@ impl FixCodec {
     }
     pub fn member_bytes(&self, m: &Member<Id>) -> Vec<u8> {
         let mut v = Vec::with_capacity(8);
+        let st = match m.state() {
+            State::Alive => 0u8,
+            State::Suspect => 1,
+            State::Down => 2,
+        };
+        if self.packed {
+            let i = m.id();
+            if i.addr < 15 && i.gen < 16 {
+                v.push((i.addr << 4) | i.gen);
+            } else {
+                v.push(0xFF);
+                v.push(i.addr);
+                v.push(i.gen);
+            }
+            if m.incarnation() < 63 {
+                v.push(((m.incarnation() as u8) << 2) | st);
+            } else {
+                v.push(0xFC | st);
+                v.put_u16(m.incarnation());
+            }
+            return v;
+        }
         self.put_id(&mut v, m.id());
         v.put_u16(m.incarnation());
         v.push(match m.state() {
@@ -258,6 +289,39 @@ impl FixCodec {
         Ok(Header { src, src_incarnation, dst, message })
     }
     pub fn parse_member(&self, mut b: impl Buf) -> Result<Member<Id>, CodecErr> {
+        if self.packed {
+            if b.remaining() < 1 {
+                return Err(CodecErr("short id"));
+            }
+            let b0 = b.get_u8();
+            let (addr, gen) = if b0 == 0xFF {
+                if b.remaining() < 2 {
+                    return Err(CodecErr("short id"));
+                }
+                (b.get_u8(), b.get_u8())
+            } else {
+                (b0 >> 4, b0 & 0x0F)
+            };
+            if b.remaining() < 1 {
+                return Err(CodecErr("short member"));
+            }
+            let b1 = b.get_u8();
+            let st = match b1 & 3 {
+                0 => State::Alive,
+                1 => State::Suspect,
+                2 => State::Down,
+                _ => return Err(CodecErr("bad state")),
+            };
+            let inc = if b1 >> 2 == 63 {
+                if b.remaining() < 2 {
+                    return Err(CodecErr("short member"));
+                }
+                b.get_u16()
+            } else {
+                u16::from(b1 >> 2)
+            };
+            return Ok(Member::new(Id { addr, gen, pol: Renew::None }, inc, st));
+        }
         let i = self.get_id(&mut b)?;
         if b.remaining() < 3 {
             return Err(CodecErr("short member"));
@@ -291,6 +355,9 @@ impl Codec<Id> for FixCodec {
         self.parse_header(buf)
     }
     fn encode_member(&mut self, m: &Member<Id>, mut buf: impl BufMut) -> Result<(), CodecErr> {
+        if self.fail_down && m.state() == State::Down {
+            return Err(CodecErr("injected: cannot encode a Down member"));
+        }
         let v = self.member_bytes(m);
         // Like serde-style codecs, write as much as fits before failing, so
         // that Foca's "truncate back to the last valid position" path is
